@@ -237,25 +237,135 @@ class FileTieStream(annotcorr.AnnotateStream):
         return run_driver([line])[0]
 
     def agree(self, case, impl_out, model_out):
-        if not model_out.startswith("H1"):
-            return True        # the theorem says nothing here
-        h, c, p, l, w = model_out.split("|", 4)
-        if c != "C1" or impl_out != w:
+        if model_out == "-":
+            return True
+        h, c, k, f, d, p, l, w = model_out.split("|", 7)
+        # C07_file: hypothesis K (closed header block) implies hypothesis H (tagsCompose) — proved; evaluated here as well
+        if k == "K1" and h != "H1":
             return False
-        from reuse.extract import extract_reuse_info
-        try:
-            info = extract_reuse_info(dec(impl_out[2:]))
-        except Exception:
-            return True        # a raw value elsewhere in the file does not parse: the theorem speaks of raw values, lint drops the file
-        self._hyp = getattr(self, "_hyp", set())
-        self._hyp.add(json.dumps(case, sort_keys=True))
-        got_cpr, got_lic = set(info.copyright_lines), {str(x) for x in info.spdx_expressions}
+        if h != "H1" and f != "F1":
+            return True        # the theorems say nothing here
+        if impl_out != w:
+            return False
         want_cpr = set(case["cpr"]) | set(dec_list(p[1:]))
         want_lic = {G.norm_lic(x) for x in case["lic"] + dec_list(l[1:])}
-        return want_cpr <= got_cpr and want_lic <= got_lic
+        key = json.dumps(case, sort_keys=True)
+        if h == "H1":
+            if c != "C1":
+                return False
+            from reuse.extract import extract_reuse_info
+            try:
+                info = extract_reuse_info(dec(impl_out[2:]))
+            except Exception:
+                info = None    # a raw value elsewhere in the file does not parse: the theorem speaks of raw values, lint drops the file
+            if info is not None:
+                self._hyp = getattr(self, "_hyp", set())
+                self._hyp.add(key)
+                if k == "K1":
+                    self.closed = getattr(self, "closed", 0) + 1
+                got_cpr, got_lic = set(info.copyright_lines), {str(x) for x in info.spdx_expressions}
+                if not (want_cpr <= got_cpr and want_lic <= got_lic):
+                    return False
+        if f == "F1":
+            # C07_file_window: what lint reads of the written file — its first 4096 bytes, decoded — declares everything
+            if d != "D1":
+                return False
+            got = G.lint_read_bytes(dec(impl_out[2:]).encode("utf-8"))
+            if got is not None:    # None: an expression in the window does not parse (hypothesis `hparse` of C07_lint_reads_back)
+                self.windowed = getattr(self, "windowed", 0) + 1
+                if not (want_cpr <= got[0] and want_lic <= got[1]):
+                    return False
+        return True
 
     def nontrivial(self, case, impl_out):
         return impl_out if json.dumps(case, sort_keys=True) in getattr(self, "_hyp", ()) else None
+
+
+class AchievableTieStream(Stream):
+    """Theorem-hypothesis tie for C07_default_achievable / C07_default_header: the driver evaluates `lineMode`,
+    `styleReadable` and `wfRequest` on the case; where they hold the real `_create_new_header` (bundled default template) must
+    return the very header the model returns, and the real `extract_reuse_info` must read back exactly the request —
+    copyright lines, expressions and contributors."""
+    name = "achievetie"
+    exhaustive = True
+    rule = ("every style of the table x {default, forced multi-line} x requests from the generators' holders / licences / "
+            "contributors over the ten prefixes and three year forms, plus values chosen to fail one hypothesis each (a tail that "
+            "begins a comment terminator, the mirrored frame of the line prefix, a contributor that is a notice, a foreign tag, "
+            "REUSE-IgnoreStart, line-boundary characters, white space at either end, the empty value); the driver evaluates the "
+            "hypotheses of C07_default_achievable; where they hold the real _create_new_header must return the same header as the "
+            "model and the real extract_reuse_info must read back exactly the request; non-trivial = hypotheses hold")
+
+    TRICKY = ["Bob \"the builder\"", "ends with */", "arrow -->", "Vitamin c", "Copyright Holder Inc.", "X SPDX-License-Identifier: MIT",
+              "REUSE-IgnoreStart", "trailing\u00a0", "a\x0cb", " lead", "Q :)", "R ]", "S '", "T }", "U #}", "ok=#", "semi ;", "bang !",
+              "percent %", "dash -", "tick '", "dnl", "REM", "star *", "(paren)", "x>", "/>", "::", "©", "Copyright", "2020 Foo",
+              "SPDX-FileContributor: nested", "line\u2028sep", "x\x85y"]
+
+    def cases(self, tier, rng):
+        holders = G.HOLDERS + G.TRICKY_HOLDERS + self.TRICKY
+        cons = G.CONTRIBUTORS + self.TRICKY
+        prefixes = list(G.PREFIX_TEXT)
+        n = 0
+        for st in annotcorr.all_styles():
+            for force in ("0", "1"):
+                for i in range(len(holders)):
+                    n += 1
+                    p = prefixes[(i + n) % len(prefixes)]
+                    y = [None, "2020", "2019 - 2021", "2001-2003"][(i + n) % 4]
+                    cpr = [G.expected_notice(holders[i], p, y)]
+                    if i % 5 == 0:
+                        cpr.append(G.expected_notice(holders[(i + 7) % len(G.HOLDERS)], "spdx", "1999"))
+                    lic = [G.norm_lic(G.LICENSES[(i + n) % len(G.LICENSES)])] + ([G.norm_lic(G.LICENSES[(i + 3) % len(G.LICENSES)])] if i % 2 else [])
+                    con = [cons[(i * 3 + n) % len(cons)]] if i % 3 != 1 else []
+                    if i % 11 == 0:
+                        lic = []
+                    if i % 13 == 0:
+                        cpr = []
+                    yield {"s": st.__name__, "f": "0" + force + "000", "cpr": cpr, "lic": lic, "con": con}
+
+    def impl(self, case):
+        from reuse import ReuseInfo, _LICENSING
+        from reuse.header import _create_new_header
+        from reuse.extract import extract_reuse_info
+        from reuse.exceptions import CommentCreateError, MissingReuseInfoError
+        info = ReuseInfo(spdx_expressions={_LICENSING.parse(x) for x in case["lic"]}, copyright_lines=set(case["cpr"]), contributor_lines=set(case["con"]))
+        try:
+            hdr = _create_new_header(info, template=None, template_is_commented=False, style=annotcorr.style_by_name(case["s"]),
+                                     force_multi=case["f"][1] == "1")
+        except CommentCreateError:
+            return "err:create"
+        except MissingReuseInfoError:
+            return "err:missing"
+        try:
+            back = extract_reuse_info(hdr)
+            read = "%s|%s|%s" % (enc_list(sorted(back.copyright_lines)), enc_list(sorted(str(x) for x in back.spdx_expressions)),
+                                 enc_list(sorted(back.contributor_lines)))
+        except Exception as e:
+            read = "unreadable:" + type(e).__name__
+        return "ok:" + enc(hdr) + "#" + read
+
+    def model_lines(self, case):
+        return ["c07ach\t%s\t%s\t%s\t%s\t%s" % (case["s"], case["f"], enc_list(case["cpr"]), enc_list(case["con"]), enc_list(case["lic"]))]
+
+    def agree(self, case, impl_out, model_out):
+        h, why, res = model_out.split("|", 2)
+        self.why = getattr(self, "why", {})
+        self.why[why] = self.why.get(why, 0) + 1
+        if h != "H1":
+            return True        # the theorem says nothing here
+        if not impl_out.startswith("ok:"):
+            return False
+        hdr, read = impl_out.split("#", 1)
+        if hdr != res:
+            return False       # C07_default_header: the header is the model's, line by line
+        want = "%s|%s|%s" % (enc_list(sorted(set(case["cpr"]))), enc_list(sorted(set(case["lic"]))), enc_list(sorted(set(case["con"]))))
+        if read != want:
+            return False
+        self._hyp = getattr(self, "_hyp", set())
+        self._hyp.add(json.dumps(case, sort_keys=True))
+        return True
+
+    def nontrivial(self, case, impl_out):
+        return (case["s"], case["f"], impl_out) if json.dumps(case, sort_keys=True) in getattr(self, "_hyp", ()) else None
 
 
 class StyleOfStream(Stream):
@@ -347,7 +457,8 @@ class NewHeaderStream(Stream):
 
 PROPERTY = Property(
     pid="C07",
-    streams=[annotcorr.CreateCommentStream(), annotcorr.CommentAtStream(), NewHeaderStream(), AnnotateReadbackStream(), FileTieStream(), StyleOfStream(), EndToEndStream()],
+    streams=[annotcorr.CreateCommentStream(), annotcorr.CommentAtStream(), NewHeaderStream(), AchievableTieStream(), AnnotateReadbackStream(), FileTieStream(), StyleOfStream(),
+             EndToEndStream()],
     assumptions=[
         "Jinja2 is outside the model: the template is an arbitrary function in the theorems; in the correspondence the model receives "
         "the text real Jinja rendered for the information the model computed",
